@@ -76,8 +76,13 @@ def template_for(p, idx, rng=None):
     if rng is not None and len(plain) >= 2 and not groups and rng.random() < 0.15:
         return Dot(items[:-1], items[-1])        # a dotted template (a b . c)
     for g, names in groups.items():
-        style = 0 if rng is None else rng.randrange(5)
-        if style == 4:
+        style = 0 if rng is None else rng.randrange(7)
+        if style == 5:
+            # the same ellipsis variable mentioned TWICE: in two runs, or twice inside one repeated sub-template
+            items += [names[0], ELL, S("mid"), names[0], ELL] if rng.random() < 0.5 else [[names[0], names[-1], names[0]], ELL]
+        elif style == 6:
+            items += [[names[0], ELL], Vec([names[-1], ELL]), [S("again"), names[0]], ELL]
+        elif style == 4:
             # a dotted sub-template under the ellipsis: (k . v) ... or (k v1 . v2) ...
             items += [Dot([S("k")] + names[:-1], names[-1]), ELL]
         elif style == 3:
